@@ -2,7 +2,7 @@ package main
 
 func propSpecs() map[string]*PropSpec {
 	m := map[string]*PropSpec{}
-	for _, s := range []*PropSpec{specC17(), specC09(), specC02(), specC01(), specC04(), specC05(), specC06(), specC07(), specC08(), specC18(), specC03(), specC14(), specC15(), specC10(), specC11()} {
+	for _, s := range []*PropSpec{specC17(), withKernel(specC09()), specC02(), withKernel(specC01()), withKernel(specC04()), withKernel(specC05()), withKernel(specC06()), withKernel(specC07()), withKernel(specC08()), withKernel(specC18()), withKernel(specC03()), specC14(), specC15(), specC10(), specC11()} {
 		m[s.ID] = s
 	}
 	return m
@@ -94,6 +94,17 @@ func specC01() *PropSpec {
 				Desc: "valid triangle, 2x2 window, ids {0,1}", Bounds: "n=3, 2x2 px window, 2^-10 px lattice, ids {0,1}, all flags"},
 		},
 	}
+}
+
+// kernelObl: the obligation that justifies replacing lineIntersects by its oracle; part of every check that uses it.
+func kernelObl() Obligation {
+	return Obligation{Harness: "VerifC02KernelFull", Pkg: "pointindex", Mode: "math", Tiers: "both", Internal: true, Covers: []string{"meets", "misses"},
+		Desc: "lineIntersects(l,e) == exact closed-segment/half-open-box oracle (justifies the contract substitution used by the pipeline obligations of this property)", Bounds: "all integer coordinates with |c| <= 2^60, box sides 1..2^60"}
+}
+
+func withKernel(s *PropSpec) *PropSpec {
+	s.Obligations = append([]Obligation{kernelObl()}, s.Obligations...)
+	return s
 }
 
 func pipeObl(h, tiers, desc, bounds string, covers ...string) Obligation {
